@@ -32,6 +32,10 @@ OBSOLETE = {
     'C12-4': 'the patch edits the responder roll-back that the F25 repair (6539da6) rewrote: it no longer applies; last evaluation kept below',
     'C10-9': 'written against the tree before the F25 repair (6539da6), which rewrote the roll-back it edits: it no longer applies. Evaluated on the pre-repair tree a346d24 with '
              'the patch: C10 quick exit 1 (orphaned inbound SA after a refusal of the second NEWSA at the responder, flows initial / new_child / rekey_child)',
+    'C10-1': 'after the F25 repair (6539da6: Xfrm.create_child_sa removes the first SA itself when the second one is refused) the missing roll-back at the initiator '
+             'that this change introduces can no longer leave an orphan: its demo passes with the patch applied; last evaluation (before that repair) is kept below',
+    'C20-3': 'the patch was rebased by hand onto the final tree (patch.orig.diff is the author\'s) and is still detected; its demo no longer reaches its scenario (it provokes '
+             'an internal error through a kernel refusal at the responder, which since the F11/F25 repairs is answered NO_PROPOSAL_CHOSEN instead of closing the IKE_SA)',
     'C17-5': 'cannot manifest after the F15 repair (1d65f0d): CHILD_SA SPIs that are not 4 bytes long are refused before they reach the kernel layer, so the demo passes on the '
              'patched tree. Its author\'s closing remark led to finding F15',
 }
@@ -43,7 +47,7 @@ def evaluate(seed):
     env = dict(os.environ)
     if seed in OVERRIDE_CHECK:
         env['CHECK_ID'] = OVERRIDE_CHECK[seed]
-    out = subprocess.run([os.path.join(V, 'tools', 'seed_eval.sh'), seed], capture_output=True, text=True, timeout=4000, env=env).stdout
+    out = subprocess.run([os.path.join(V, 'tools', 'seed_eval.sh'), seed], capture_output=True, timeout=4000, env=env).stdout.decode('utf-8', 'replace')
     m1 = re.search(r'demo clean exit=(\d+)\s+patched exit=(\d+)\s+tests: (.*)', out)
     m2 = re.search(r'check (\w+) (\w+) exit=(\d+) ; (\d+) VIOLATION', out)
     ce = re.findall(r'counterexample \[(.*?)\] (.*?): \{', out)
